@@ -315,7 +315,8 @@ def leanchecker(modules, timeout=3000):
 
 MV_THEOREMS = {'conf_consts_eq', 'conf_up_eq', 'conf_homo_eq', 'conf_down_eq', 'g3c_translation_rotor_eq', 'g3c_dilation_rotor_eq',
                'g3c_apply_rotor_eq', 'g3c_rotor_between_planes_eq', 'cga_call_eq', 'cga_translation_eq', 'cga_round_eq',
-               'classify_translate_eq', 'classify_blade_mv_eq', 'classify_tests_eq'}
+               'classify_translate_eq', 'classify_blade_mv_eq', 'classify_tests_eq',
+               'g3c_point_pair_end_points_eq', 'g3c_sphere_center_eq', 'cga_dilation_eq'}
 
 
 def _tie_a_one(script):
